@@ -32,7 +32,11 @@ archive that is REPLACED at the same path by an archive holding another graph be
 If NO other format agrees with the raw N-Triples reference while at least two thirds of the other formats agree among themselves,
 the reference is outvoted for that graph and the nt channels are the ones reported (C08:channel-differs:nt-raw / nt).
 
+Half of the graphs are also delivered as zip archives whose members lie under a folder of the archive (graph/partN.ext, with the
+directory entry `zip -r` writes), alone and mixed with flat members, for nt / tsv_spo / turtle / turtle_iter (key zip:nested-member).
+
 Finding keys
+    C08:channel-differs:zip:nested-member                only the archive with members under a folder disagrees
     C08:channel-differs:<format>-gz:multi-member         only the two-member .gz file disagrees (the one-member .gz agrees)
     C08:channel-differs:zip:stale-archive                second run on a replaced archive disagrees with its own graph
     C08:iri-mangled:<channel>                            the output names IRIs that do not occur in the graph
@@ -201,9 +205,13 @@ def deliver(variant, T, tmpdir):
         paths = []
         for ai, members in enumerate(groups):
             zpath = os.path.join(base, "a%d.%s.zip" % (ai, EXT[fmt]))
+            nested = variant.get("nested") or []
             with zipfile.ZipFile(zpath, "w", zipfile.ZIP_DEFLATED) as z:
+                if any(nested[mi] for mi in members if mi < len(nested)):
+                    z.writestr("graph/", b"")             # the directory entry `zip -r` writes
                 for mi in members:
-                    z.writestr("part%d.%s" % (mi, EXT[fmt]), texts[mi].encode("utf-8"))
+                    folder = "graph/" if mi < len(nested) and nested[mi] else ""
+                    z.writestr("%spart%d.%s" % (folder, mi, EXT[fmt]), texts[mi].encode("utf-8"))
             paths.append(zpath)
         kw["compression_mode"] = "zip"
     else:
@@ -477,7 +485,7 @@ def check_case(case, R):
         def plain(fmt, how):
             for j, w in enumerate(case["variants"]):
                 if w["fmt"] == fmt and w["how"] == how and not w.get("comp") and not w.get("parts") and not w.get("rebind") \
-                        and not w.get("members"):
+                        and not w.get("members") and not w.get("nested"):
                     return j
             return None
 
@@ -536,7 +544,7 @@ def check_case(case, R):
         # N-Triples reader would otherwise be blamed on every other channel); the nt channels are then reported as differing
         if not isinstance(ref, U.Skipped) and ref_name == "raw N-Triples string":
             others = [j for j, w in enumerate(case["variants"]) if w["fmt"] != "nt" and w["how"] in ("raw", "file", "graph")
-                      and not (w.get("comp") or w.get("parts") or w.get("rebind") or w.get("members"))
+                      and not (w.get("comp") or w.get("parts") or w.get("rebind") or w.get("members") or w.get("nested"))
                       and not isinstance(outs[j], U.Skipped) and j not in mangled]
             if len(others) >= 3 and not any(sides_with(ref, outs[j]) for j in others):
                 votes = dict((j, sum(1 for k in others if sides_with(outs[j], outs[k]))) for j in others)
@@ -588,7 +596,8 @@ def check_case(case, R):
             """does the format agree with the reference for (one file | nf files) with the given compression?  None: not run"""
             for j, w in enumerate(case["variants"]):
                 if w["fmt"] == fmt and w["how"] in ("file", "files") and w.get("comp") == comp and n_files(w) == nf \
-                        and (nf == 1) == (w["how"] == "file") and not w.get("rebind") and not w.get("members"):
+                        and (nf == 1) == (w["how"] == "file") and not w.get("rebind") and not w.get("members") \
+                        and not w.get("nested"):
                     return status[j] is None or status[j][1] == "tie"       # a tie is no evidence against the format
             return None
 
@@ -599,6 +608,14 @@ def check_case(case, R):
             if v["how"] == "raw" and v["fmt"] in raw_blamed:     # already reported as raw-vs-file
                 continue
             if i in mangled:                                     # already reported as iri-mangled
+                continue
+            if v.get("nested") and not (st[0] == "differs" and st[1] == "tie") and plain_ok(v["fmt"], "zip", 1) is not False:
+                R.emit("C08:channel-differs:zip:nested-member",
+                       "channel %s, compression_mode='zip', archive whose members %r lie under the folder graph/ (%d member(s), nested: "
+                       "%r) %s; a flat archive of the same format agrees with the reference (%s): %s"
+                       % (v["fmt"], ["graph/part%d.%s" % (k, EXT[v["fmt"]]) for k, b in enumerate(v["nested"]) if b], len(v["nested"]),
+                          v["nested"], "raises " + st[1] if st[0] == "crashes" else "yields other shapes", ref_name, st[2]),
+                       dict(case, variants=[v]))
                 continue
             if v.get("members"):
                 single = plain_ok(v["fmt"], "gz", 1)
@@ -693,6 +710,15 @@ def _variants(rng, n_triples, formats, with_graph=True):
         if k2 != k:
             out.append({"fmt": fmt, "how": "files" if k2 > 1 else "file", "comp": rng.choice((None, "gz", "xz", "zip")),
                         "parts": _partition(rng, n_triples, k2, contiguous=False)})
+    if rng.random() < 0.5:                               # zip members stored under a folder of the archive, alone and mixed
+        for fmt in formats:
+            if fmt in ("nt", "tsv_spo", "turtle", "turtle_iter"):
+                kn = rng.randint(1, 3)
+                parts = _partition(rng, n_triples, kn, contiguous=True)
+                out.append({"fmt": fmt, "how": "file", "comp": "zip", "parts": parts, "nested": [True] * kn})
+                if kn > 1:
+                    out.append({"fmt": fmt, "how": "file", "comp": "zip", "parts": parts,
+                                "nested": [i % 2 == (0 if rng.random() < 0.5 else 1) for i in range(kn)]})
     if rng.random() < 0.6:                               # a .gz file made of two gzip members
         for fmt in formats:
             out.append({"fmt": fmt, "how": "file", "comp": "gz", "members": 2})
@@ -1084,7 +1110,18 @@ def _mutants():
         m1.NtTriplesYielder._look_for_last_index_of_literal_token = _look_for_last_index_of_literal_token
         return lambda: setattr(m1.NtTriplesYielder, "_look_for_last_index_of_literal_token", old)
 
-    return [("the N-Triples tokenizer looks for the FIRST '@' of a language-tagged literal", "C08:channel-differs:nt",
+    def zip_members_under_a_folder_dropped():
+        import shexer.utils.factories.triple_yielders_factory as tf
+        old = tf.list_of_zip_internal_files
+
+        def list_of_zip_internal_files(zip_base_archive):
+            return [a_name for a_name in zip_base_archive.namelist() if "/" not in a_name]
+        tf.list_of_zip_internal_files = list_of_zip_internal_files
+        return lambda: setattr(tf, "list_of_zip_internal_files", old)
+
+    return [("list_of_zip_internal_files drops the archive members that lie under a folder", "C08:channel-differs:zip:nested-member",
+             zip_members_under_a_folder_dropped),
+            ("the N-Triples tokenizer looks for the FIRST '@' of a language-tagged literal", "C08:channel-differs:nt",
              nt_language_tag_first_arroba),
             ("opened zip archives are cached per path and never invalidated", "C08:channel-differs:zip:stale-archive", zip_archive_cache),
             ("get_content_gz_file decompresses the first gzip member only", "-gz:multi-member", gz_first_member_only),
